@@ -377,8 +377,17 @@ def corr_inject(n_quick, n_thorough, maxk_quick=24):
         n = n_thorough if ctx.tier == 'thorough' else n_quick
         maxk = 0 if ctx.tier == 'thorough' else maxk_quick
         vectors = chk.gen_vectors('inject', ['-seed', str(ctx.seed), '-n', str(n), '-per', str(maxk)])
-        dis, stats, go = chk.correspond(ctx, vectors, want_spec=True)
-        out = [{'stream': st, 'id': vid, 'vector': v, 'real': g, 'other': o} for (st, vid, v, g, o) in dis]
+        dis, stats, go = chk.correspond(ctx, vectors, want_spec=True, extra_streams=('kf',))
+        kf_bad = {vid for (st, vid, v, g, o) in dis if st == 'kf'}
+        out = []
+        for (st, vid, v, g, o) in dis:
+            im0 = '-im0' in vid
+            if st == 'kf' and not im0:
+                continue
+            d = {'stream': st, 'id': vid, 'vector': v, 'real': g, 'other': o}
+            if st == 'spec' and im0 and vid not in kf_bad:
+                d['known'] = 'KF-1'      # the real code deviates from the reference exactly as the recorded description of mode 0 says
+            out.append(d)
         byid = {l.split(' ', 1)[0]: l for l in vectors.splitlines() if l.strip()}
         n_pairs = 0
         kinds = set()
@@ -390,14 +399,95 @@ def corr_inject(n_quick, n_thorough, maxk_quick=24):
             n_pairs += 1
             kinds.add(m.group(3))
             if base is None or norm(base) != norm(g):
-                out.append({'stream': 'transparency', 'id': vid, 'vector': byid.get(vid, ''), 'real': 'interrupted run: ' + g[:1500],
-                            'other': 'undisturbed run: ' + (base or 'missing')[:1500]})
+                d = {'stream': 'transparency', 'id': vid, 'vector': byid.get(vid, ''), 'real': 'interrupted run: ' + g[:1500],
+                     'other': 'undisturbed run: ' + (base or 'missing')[:1500]}
+                if '-im0' in vid and vid not in kf_bad:
+                    d['known'] = 'KF-1'  # mode 0 resumes len(data) bytes too far: not transparent (pinned by TestInterruptIM0)
+                out.append(d)
         cov = {'evaluations': len(byid), 'distinct_nontrivial': n_pairs,
                'rule': 'one vector = one complete run of a generated register-transparent program (IM n, EI, ALU/load code, LDIR/LDDR/CPIR/CPDR, a DI section with CALL/RET, DJNZ loop, OTIR/OTDR/INIR, HALT) on the real code '
                        'with one request injected before Step k; k ranges over ALL Step boundaries (sampled above %d in the quick tier) x {NMI, mode 1 | mode 2 with vectors 00/13/FE}; handlers use the stack and end EI;RETI / RETN. '
                        'Every run is compared with the regenerated model and the reference; every interrupted run is compared with the undisturbed run of its program (registers, flags, IFF, IM, HALT, pending request, memory outside the stack page). '
                        'distinct = (program, k, kind) triples' % maxk_quick,
                'correspondence': dict(stats, transparency_pairs=n_pairs, kinds=sorted(kinds))}
+        return out, cov
+    return run
+
+
+def race_bin(chk):
+    import os
+    p = os.path.join(chk.WORK, 'harness_race')
+    return (p, True) if os.path.exists(p) else (os.path.join(chk.WORK, 'harness'), False)
+
+
+def dyn_ctx(chk, runs):
+    """CPU.Run under cancellation on the real code, built with the race detector (support for C13)"""
+    exe, race = race_bin(chk)
+    rc, out = chk.sh([exe, 'ctx', '-runs', str(runs)], timeout=900)
+    lines = [l for l in out.splitlines() if l.startswith('ctx ')]
+    bad = [l for l in lines if ' ok ' not in l]
+    res = []
+    for l in bad:
+        res.append({'stream': 'ctx', 'id': l.split()[1], 'vector': l, 'real': l, 'other': 'CPU.Run must return the context error within a bounded delay, at a whole number of Steps, leaving no goroutine behind'})
+    if 'DATA RACE' in out:
+        res.append({'stream': 'race', 'id': 'ctx', 'vector': out[out.index('DATA RACE') - 20:][:3000], 'real': 'race detector report', 'other': None})
+    if rc != 0 and not res:
+        res.append({'stream': 'ctx', 'id': 'exit', 'vector': out[-2000:], 'real': f'exit {rc}', 'other': None})
+    return res, {'ctx_lines': lines, 'race_detector': race}
+
+
+def corr_c13(ctx, chk, broken):
+    base = corr_stream([('run', 400, 4000, [])], want_spec=False,
+                       rule='the Run loop translation is validated on terminating programs (as in C08); dynamic support: CPU.Run of the real code under cancellation '
+                            '(before the call, from another goroutine, by deadline) with a Step-driven twin, goroutine accounting over repeated Run calls, all under the race detector')
+    out, cov = base(ctx, chk, broken)
+    res, info = dyn_ctx(chk, 3000 if ctx.tier == 'thorough' else 300)
+    cov['correspondence']['dynamic'] = info
+    cov['evaluations'] = cov.get('evaluations', 0) + (3000 if ctx.tier == 'thorough' else 300) + 60
+    return res + out, cov
+
+
+def corr_c10(n_quick, n_thorough):
+    """C10: snapshot/restore at EVERY boundary (real vs real: a CPU rebuilt from the public state after every Step), the same vectors against model
+    and reference, and independent CPUs driven from concurrent goroutines under the race detector"""
+    inj = corr_inject(n_quick, n_thorough)
+
+    def run(ctx, chk, broken):
+        out, cov = inj(ctx, chk, broken)
+        out = [d for d in out if d['stream'] != 'transparency']       # transparency is C07's business
+        n = n_thorough if ctx.tier == 'thorough' else n_quick
+        vectors = chk.gen_vectors('inject', ['-seed', str(ctx.seed + 5), '-n', str(n), '-per', '0' if ctx.tier == 'thorough' else '24'])
+        vectors += chk.gen_vectors('slots', ['-seed', str(ctx.seed + 5), '-per', '1'])
+        vectors += chk.gen_vectors('block', ['-seed', str(ctx.seed + 5), '-n', '60', '-per', '0'])
+        lines = [l for l in vectors.splitlines() if l.strip()]
+        rb = [('rb-' + l)[:-len('K step')] + 'K rebuild' for l in lines if l.endswith('K step')]
+        go = {l.split(' ', 1)[0]: l for l in chk.run_go('\n'.join(lines + rb) + '\n')}
+        n_rb = 0
+        for l in lines:
+            vid = l.split(' ', 1)[0]
+            a, b = go.get(vid), go.get('rb-' + vid)
+            if b is None:
+                continue
+            n_rb += 1
+            if a is None or a != b[3:]:
+                out.append({'stream': 'snapshot', 'id': vid, 'vector': l, 'real': 'continuous run: ' + str(a)[:1500],
+                            'other': 'CPU rebuilt from States + exported fields after every Step: ' + str(b)[:1500]})
+        exe, race = race_bin(chk)
+        parvec = '\n'.join([l for l in lines if l.startswith('inj-')][:400]) + '\n' + chk.gen_vectors('run', ['-seed', str(ctx.seed), '-n', '200'])
+        g = 16 if ctx.tier == 'thorough' else 8
+        rc, po = chk.sh([exe, 'par', '-g', str(g)], inp=parvec, timeout=1800)
+        pl = [l for l in po.splitlines() if l.startswith('par ')]
+        for l in pl:
+            if not l.startswith('par ok'):
+                out.append({'stream': 'parallel', 'id': 'par', 'vector': l[:3000], 'real': l[:1500], 'other': 'independent CPUs must not influence one another'})
+        if 'DATA RACE' in po:
+            out.append({'stream': 'race', 'id': 'par', 'vector': po[po.index('DATA RACE') - 20:][:3000], 'real': 'race detector report', 'other': None})
+        if not pl:
+            out.append({'stream': 'parallel', 'id': 'par', 'vector': po[-1500:], 'real': f'exit {rc}', 'other': None})
+        cov['evaluations'] = cov.get('evaluations', 0) + 2 * n_rb
+        cov['correspondence'].update({'snapshot_pairs': n_rb, 'parallel': pl, 'race_detector': race, 'goroutines': g})
+        cov['rule'] += (' | snapshot: every vector (injection programs, one per opcode slot, block runs) is also run with the CPU REBUILT from a copy of States and the exported fields after EVERY Step; results must be identical. '
+                        '| parallel: the injection programs and Run vectors executed from %d goroutines concurrently on their own CPUs/memories, compared with the sequential results, under the race detector' % g)
         return out, cov
     return run
 
@@ -476,8 +566,7 @@ PROPS = {
     'C13': {
         'targets': ['Z80.Props.C13'],
         'count': ['Z80/Proofs/RunLoop.lean', 'Z80/Props/C13.lean'],
-        'correspond': corr_stream([('run', 400, 4000, [])], want_spec=False,
-                                  rule='the Run loop translation is validated on terminating programs (as in C08); cancellation itself is not replayed dynamically'),
+        'correspond': corr_c13,
         'assumptions': ['the watcher goroutine and the loop are modelled as two threads over the shared variables {ctx2 cancelled, ctxErr, canceled flag}; the action lists are extracted from the current source by go2lean',
                         'Go memory model: an atomic load that observes an atomic store orders everything before the store before everything after the load',
                         'partial: "within a bounded delay" is scheduler-dependent (the flag is checked before every Step; a Step is finite: C12); goroutine accounting and the race detector are runtime facts outside the model'],
@@ -545,6 +634,16 @@ PROPS = {
                         'mode 0 with supplied bytes is NOT transparent in this code base: known findings KF-1 (pinned by TestInterruptIM0) and KF-2, witnessed by kernel evaluation (KF1_witness, KF2_witness); not generated by the injection stream',
                         'HALT keeps PC on the HALT opcode in this emulator, so a CPU parked on HALT resumes the HALT'],
         'explanation': 'acceptance (NMI / IM 1 / IM 2) pushes exactly the current PC and changes nothing else observable; EI;RETI and RETN from any balanced handler state return to it; complete round trips through minimal handlers end in a state equal to the interrupted one (all registers, IFF, IM, HALT, memory outside two stack bytes) for every state',
+    },
+    'C10': {
+        'targets': ['Z80.Props.C10'],
+        'count': ['Z80/Props/C10.lean', 'Z80/Proofs/RunLoop.lean'],
+        'correspond': corr_c10(4, 40),
+        'assumptions': ['the model of a Step is a FUNCTION of the model state; the model state is the CPU record regenerated from the Go struct (all fields) plus the memory function, the device function and the access log; '
+                        'go2lean refuses package-level variables other than ErrBreakPoint, so there is nothing else a Step could depend on — this refusal and the regenerated field list are the tie',
+                        'the device sees the bus history (its answers may depend on it) — that is the environment, not hidden CPU state',
+                        'partial: absence of data races between CPUs is a Go runtime fact; it is supported by the race-detector run, and structurally by "no shared variables" (packageVars, syncUsers, goroutineStarters)'],
+        'explanation': 'every field of CPU/States is exported and the model state is exactly those fields; no package-level state; a run continued from a snapshot at any boundary equals the original run (stepN (m+n) = stepN m then stepN n); any interleaving of two CPUs equals the two separate runs',
     },
     'C16': {
         'targets': ['Z80.Props.C16'],
